@@ -4,6 +4,8 @@
 cd "$(dirname "$0")/.."
 export GOFLAGS=-mod=mod GOPROXY=off GOSUMDB=off GOTOOLCHAIN=local GOWORK=off
 ./setup.sh >/dev/null || exit 2
+# the scratch copies fill the Go build cache over time: trim it before it fills the disk
+if [ "$(du -sm "$(go env GOCACHE)" 2>/dev/null | cut -f1)" -gt 40000 ]; then go clean -cache; fi
 fail=0
 echo "== unchanged tree"
 bin/dcpverif -prop all -no-evidence | grep -E "VIOLATION|obligations" | grep -E "VIOLATION|[1-9][0-9]* failing" && fail=1
